@@ -455,6 +455,11 @@ class Context:
         return None
 
     def ext_getattr(self, I, obj, cell, name, node):
+        for pl in self.plugins:
+            if hasattr(pl, 'ext_getattr'):
+                r = pl.ext_getattr(I, obj, cell, name, node)
+                if r is not None:
+                    return r
         q = '%s.%s' % (cell.extname, name)
         if cell.extname in ('Connection', 'Cursor') and getattr(self, 'sql', None) is not None:
             return VBuiltin('sql:' + q, obj)
@@ -952,7 +957,7 @@ class Context:
         hint = self.registry.fields.get(cname, {}).get('__file__')
         if hint is not None:
             return self.repo.module(hint.name if isinstance(hint, Ty) else hint).classes.get(cname)
-        return None
+        return self.find_class_by_name(cname)
 
     def make_object(self, I, cname, name):
         info = self.find_class(cname)
@@ -2182,7 +2187,10 @@ class Context:
         self.reports[contract.key] = rep
         if contract.file == '<ext>':
             return rep
-        fi = self.repo.func(contract.file, contract.qualname)
+        if contract.file == '<scenario>':
+            fi = self.scenario_func(contract)
+        else:
+            fi = self.repo.func(contract.file, contract.qualname)
         t0 = time.time()
         if fi is None:
             rep.missing = True
@@ -2228,6 +2236,20 @@ class Context:
         rep.secs = time.time() - t0
         return rep
 
+    def scenario_func(self, contract):
+        class _M:
+            relpath = '<scenario>'
+            source = contract.sidecar.source
+            package = ''
+
+            def lookup(self, repo, name, _depth=0):
+                return None
+        node = ast.FunctionDef(name=contract.node.name, args=contract.node.args, body=list(contract.body) or [ast.Pass()],
+                               decorator_list=[], returns=None)
+        ast.copy_location(node, contract.node)
+        ast.fix_missing_locations(node)
+        return FuncInfo(_M(), None, node)
+
     def run_path(self, I, contract, fi):
         fp = [a.arg for a in fi.node.args.args]
         cp = [p for p, _ in contract.params]
@@ -2263,6 +2285,9 @@ class Context:
         except PyExc as pe:
             exc = pe.exc
         q = fi.qualname
+        if contract.file == '<scenario>':
+            env = dict(env)
+            env.update({k: v for k, v in frame.env.items() if not k.startswith('$')})      # the scenario's locals are its vocabulary
         if os.environ.get('PYVC_TRACE'):
             print('PATH', q, 'decisions', list(I.decisions), 'exc', exc and (exc.cls, exc.origin), 'events',
                   [getattr(e, 'name', '?') for e in I.st.trace])
